@@ -506,8 +506,13 @@ def routerCases : RouterC → List CaseD
   | .switch _ _ _ ks _ _ _ => ks
   | .random .. => []
 
+def nodeCasesC (n : NodeC) : List CaseD :=
+  match n.router with
+  | none => []
+  | some r => routerCases r
+
 def nodeGroupRefs (n : NodeC) : Except Err (List (Str × Str)) :=
-  match mapE caseGroupRefs (match n.router with | none => [] | some r => routerCases r) with
+  match mapE caseGroupRefs (nodeCasesC n) with
   | .error e => .error e
   | .ok rs => .ok ((n.actions.map actionGroupRefs).flatten ++ rs.flatten)
 
